@@ -106,13 +106,14 @@ def name_class(name, rect):
     return 'other'
 
 
-def diagnose(dens, names, refs_only=False):
+def diagnose(dens, names, refs_only=False, embed=False):
     """One cause tag per failure, decided by my own classification of the
     denotation(s) and by the *shape* of the identifiers involved:
       max-elided      an identifier is the text of the rectangle with a coordinate equal to the last column/row dropped
       doubled-single  an identifier is `X:X` for a single cell X
       book:apostrophe the workbook or directory name contains an apostrophe
-      sheet:<class>   the sheet name needs quoting (punct / digit-leading / apostrophe)
+      sheet:<class>   the sheet name needs quoting (punct / digit-leading / apostrophe; a name that looks like a
+                      reference or a logical - celllike - only where the identifier is embedded in a formula)
       inner           none of these: nothing is listed for it
     -> (cause, detail-tag)"""
     names = [n for n in names if isinstance(n, str)]
@@ -133,7 +134,7 @@ def diagnose(dens, names, refs_only=False):
                 return 'book:apostrophe', ''
         for den in dens:
             sc = X.sheet_class(den.get('sheet'))
-            if sc in PROBLEM_SHEETS:
+            if sc in PROBLEM_SHEETS or (embed and sc == 'celllike'):
                 return 'sheet:' + sc, ''
     for den in dens:
         r = den.get('rect')
@@ -143,7 +144,7 @@ def diagnose(dens, names, refs_only=False):
 
 
 def sig(sub, dens, names, got, refs_only=False):
-    cause, tag = diagnose(dens, names, refs_only)
+    cause, tag = diagnose(dens, names, refs_only, embed=sub == 'embed')
     return '%s|%s|%s' % (sub, cause, tag or got)
 
 
@@ -761,7 +762,7 @@ STRATEGIES = {'spellings': _rect_case, 'near': _near_case, 'names': _name_case, 
 
 FLOORS = {
     'cols-block': ('count', {'quick': 128, 'thorough': 128}),
-    'form:rel': ('count', {'quick': 300, 'thorough': 3000}),
+    'form:rel': ('count', {'quick': 150, 'thorough': 1500}),
     'form:relrel': ('count', {'quick': 300, 'thorough': 3000}),
     'form:cols': ('count', {'quick': 300, 'thorough': 3000}),
     'form:rows': ('count', {'quick': 300, 'thorough': 3000}),
